@@ -2,6 +2,7 @@ import Tengo.Sexp
 import Tengo.Model.VM
 import Tengo.Model.VerifyProg
 import Tengo.Model.RelocCheck
+import Tengo.Model.RenumCheck
 import Tengo.Model.Optimizer
 import Tengo.Proofs.C03Twin
 import Tengo.Drivers.C01
@@ -16,7 +17,7 @@ import Tengo.Drivers.C01
 -/
 namespace Tengo.Drivers.VM
 open Tengo Tengo.Model.Spec Tengo.Model.VM
-open Tengo.Drivers.C01 (showValue readValue hexOfString atomize)
+open Tengo.Drivers.C01 (showValue readValue hexOfString atomize staleValue staleText)
 
 def readFn : Sexp → Option Fn
   | .list [.atom "fn", b, nl, np, va] =>
@@ -69,6 +70,7 @@ def handleVM : List Sexp → String
         let tail := s!"{log.steps} {log.counted} {log.sum}"
         match out with
         | .halted cfg =>
+          if cfg.core.regs.globals.toList.any (fun v => staleValue 64 cfg.heap v) then staleText else
           let gsOut := cfg.core.regs.globals.toList.map (fun v => showValue 64 cfg.heap v)
           s!"ok {tail} {cfg.core.regs.sp} " ++ showTrace log ++ " (" ++ " ".intercalate gsOut ++ ")"
         | .failed e _ =>
@@ -177,7 +179,69 @@ def handleReloc : List Sexp → String
     | _, _ => "bad-op args"
   | _ => "bad-op"
 
+/-- Value constants of the two programs agree as written: constant `k` of the first program and constant
+`tab[k]` of the second are both values with the same S-expression, or both functions. -/
+def sameValsAsWritten (cs cs' : List Sexp) (tab : List Nat) : Bool :=
+  (cs.zip tab).all (fun (c, j) =>
+    match c, cs'[j]? with
+    | .list [.atom "v", v], some (.list [.atom "v", v']) => v == v'
+    | .list [.atom "v", _], _ => false
+    | _, some (.list [.atom "v", _]) => false
+    | _, some _ => true
+    | _, none => false)
+
+/-- Untrusted instruction starts of one function for the renumbering check. -/
+def startsOf (f : Fn) : List Nat :=
+  match Tengo.Model.decode f.insts.toList with
+  | none => []
+  | some is => is.map (fun i => i.pos)
+
+/-- `(renum (<const>…) <fn> (<const'>…) <fn'> (<cm 0> <cm 1> …))`: is the second program the first with
+its constant pool renumbered by the given index map and the CONST / CLOSURE operands rewritten
+(`checkRenum`, sound by `Tengo.Proofs.VMRenumCheck.checkRenum_sound`; value constants compared as
+written; initial function objects of `initFobjs` compared by `initRelB`)? →
+`ok <#functions> <#starts>` | `fail <what>` | `differ` (value constants differ as written). -/
+def handleRenum : List Sexp → String
+  | [.list cs, mainFn, .list cs', mainFn', .list tabS] =>
+    match readFn mainFn, readFn mainFn', tabS.mapM (fun s => s.asNat?) with
+    | some main, some main', some tab =>
+      if cs.length != tab.length then "fail tab"
+      else if !sameValsAsWritten cs cs' tab then "differ"
+      else
+      match (readConsts cs).run {}, (readConsts cs').run {} with
+      | .ok (some consts, _), .ok (some consts', _) =>
+        let (code, fobjs) := initFobjs { main := main, consts := consts.toArray }
+        let (code', fobjs') := initFobjs { main := main', consts := consts'.toArray }
+        let idxs := List.range (code.consts.size + 1)
+        let sts : Array (List Nat) := idxs.toArray.map (fun idx =>
+          match code.fn idx with
+          | some f => startsOf f
+          | none => [])
+        let starts : Nat → List Nat := fun idx => sts[idx]?.getD []
+        let cm := cmOf tab code'.consts.size
+        if !initRelB fobjs fobjs' tab code'.consts.size then "fail init"
+        else if checkRenum code code' tab starts then
+          let nfn := (idxs.filter (fun idx => (code.fn idx).isSome)).length
+          let nst := sts.foldl (fun n t => n + t.length) 0
+          s!"ok {nfn} {nst}"
+        else if tab.length != code.consts.size then "fail tab"
+        else if !fnShapeB code.main code'.main then "fail main"
+        else
+          match (List.range code.consts.size).find? (fun k => !constShapeB (code.consts[k]?) (code'.consts[cm k]?)) with
+          | some k => s!"fail const {k}"
+          | none =>
+            match idxs.find? (fun idx =>
+                match code.fn idx, code'.fn (fim cm idx) with
+                | some f, some f' => !checkFnRenum code code' cm f f' (starts idx)
+                | some _, none => true
+                | none, _ => false) with
+            | some idx => s!"fail fn {idx}"
+            | none => "fail"
+      | _, _ => "bad-op consts"
+    | _, _, _ => "bad-op args"
+  | _ => "bad-op"
+
 def handlers : List (String × (List Sexp → String)) :=
-  [("vm", handleVM), ("verifyprog", handleVerifyProg), ("reloc", handleReloc)]
+  [("vm", handleVM), ("verifyprog", handleVerifyProg), ("reloc", handleReloc), ("renum", handleRenum)]
 
 end Tengo.Drivers.VM
